@@ -33,6 +33,7 @@ type Engine struct {
 	strIdx  map[string]uint32
 	fnCount map[string]int
 	harnessFiles map[string]bool
+	only    map[string]bool // harness files loaded (nil = all)
 }
 
 func (g *Engine) intern(s string) uint32 {
